@@ -355,7 +355,8 @@ def gen_case(rng, idx, big):
                 seen[p["t"]] = seen.get(p["t"], 0) + 1
                 p["sid"] = seen[p["t"]]
     motions = {str(t): {"q": [rng.uniform(-180, 180), rng.uniform(0, 180), rng.uniform(-180, 180)],
-                        "v": [rng.uniform(-100, 100) for _ in range(3)]} for t in tomos}
+                        # mostly moderate translations, sometimes far from the origin (1e5 .. 1e7 voxels)
+                        "v": [rng.uniform(-1, 1) * rng.choice([100.0, 100.0, 100.0, 1e5, 1e6, 1e7]) for _ in range(3)]} for t in tomos}
     return {"kind": "l3_lists", "id": idx, "A": A, "B": B, "k": rng.randint(1, 5),
             "px": rng.choice([1.0, 1.0, 0.5, 2.0, 1.35, 3.42, round(rng.uniform(0.2, 4.0), 3)]),
             "motions": motions, "judge_seed": rng.randrange(2 ** 31)}
@@ -514,9 +515,18 @@ def analyse(ctx, case):
         mv = {"kind": "moved", "q": int(a["sid"]),
               "nn_before": [int(r["subtomo_nn_idx"]) if math.isfinite(r["subtomo_nn_idx"]) else -1 for r in rows],
               "nn_after": [int(r["subtomo_nn_idx"]) if math.isfinite(r["subtomo_nn_idx"]) else -1 for r in rows2],
-              "dd": [], "df": [], "da": [], "dr": []}
+              "dd": [], "df": [], "da": [], "dr": [], "dm": []}
         for r in range(n):
             x, y = rows[r], rows2[r]
+            # the distance reported for the moved lists against the Euclidean distance of the moved positions as stored
+            # (all pairs, plain differences), in 1e-9: far from the origin nothing but float64 rounding may be lost
+            s2 = y["subtomo_nn_idx"]
+            j2 = b_of(int(s2), a["t"]) if math.isfinite(s2) else None
+            if j2 is None or not math.isfinite(y["distance"]):
+                mv["dm"].append(-CAP)
+            else:
+                brute = math.sqrt(float(np.sum((cb2[j2] - ca2[ia]) ** 2))) * px
+                mv["dm"].append(int(min(CAP, round(abs(y["distance"] - brute) / max(1.0, px) * 1e9))))
             scale = max(1.0, abs(x["distance"]))
             mv["dd"].append(abs(qd((y["distance"] - x["distance"]) / scale)))
             f1 = np.array([x["coord_rx"], x["coord_ry"], x["coord_rz"]])
@@ -546,7 +556,7 @@ def run_l3(ctx, cases, name="trace"):
     with open(path, "w") as fh:
         for t in traces:
             fh.write(json.dumps(t) + "\n")
-    cfgt = "SPECIFICATION TraceSpec\nCONSTANTS\n DistTol = 1\n ResTol = 10\n AngTol = 2\nCONSTRAINT Report\n"
+    cfgt = "SPECIFICATION TraceSpec\nCONSTANTS\n DistTol = 1\n ResTol = 10\n AngTol = 2\n MovedDistTol = 30\nCONSTRAINT Report\n"
     res = ctx.tlc("NearestNbrTrace", cfgt, name=name, env={"TRACE_FILE": path}, workers=1)
     verdicts = {v["tid"]: v for v in res.tagged.get("VERDICT", [])}
     if len(verdicts) != len(traces):
